@@ -48,6 +48,23 @@ def predict_case(case):
         Z = Xtr - Xtr.mean(0)
         y = Z @ Z.T
     model.fit(Xtr, y)
+    if si % 2 == 0:
+        # event: a refit of the same object is refused (non-finite data; for Kauri also a kernel that rejects the data, with warnings as errors):
+        # the object keeps answering as ONE model - per-sample predictions consistent with its labels_
+        import warnings
+        keep = model.get_params(deep=False)
+        bad_X = Xtr.copy()
+        bad_X[0, 0] = np.nan
+        for attempt_ in ((lambda: model.fit(bad_X, y)), (lambda: model.set_params(kernel="chi2").fit(Xtr - 50.0)) if name == "Kauri" else None):
+            if attempt_ is None:
+                continue
+            try:
+                with warnings.catch_warnings():
+                    warnings.simplefilter("error")
+                    attempt_()
+            except Exception:  # noqa
+                pass
+        model.set_params(**keep)
     where = dict(estimator=name, spec=str(SPECS[name][si]))
     v, n_eval = [], 0
     has_proba = hasattr(model, "predict_proba")
